@@ -372,35 +372,52 @@ def rule_r5(ctx: Ctx) -> None:
              and isinstance(f.node, (ast.FunctionDef, ast.AsyncFunctionDef))]
     for fn in sorted(scope, key=lambda x: x.fullname):
         for l in walk_local(fn.node):
+            if isinstance(l, (ast.ListComp,)) and len(l.generators) == 1 and not l.generators[0].ifs and any(
+                    isinstance(c, ast.Call) and call_name(c) == "get_arguments" for c in ast.walk(l.generators[0].iter)):
+                # [build(field) for field in get_arguments(t)]: one argument per declared field by construction
+                p_ = parent(l)
+                feeds = isinstance(p_, (ast.Assign, ast.AnnAssign, ast.Return)) or (isinstance(p_, ast.Call) and call_name(p_) == "apply_constructor")
+                if feeds and not (isinstance(l.elt, ast.Name) or isinstance(l.elt, ast.Tuple)):
+                    n += 1
+                    ctx.ob("C01.R5", fn, l, f"{fn.name}: one argument per declared field (comprehension over the fields)", True, "")
+                continue
             if not (isinstance(l, ast.For) and any(isinstance(c, ast.Call) and call_name(c) == "get_arguments" for c in ast.walk(l.iter))):
                 continue
-            # the list that is passed to apply_constructor after the loop
+            # the argument list: the local list the loop appends to
+            apps = [x for b_ in l.body for x in ast.walk(b_) if isinstance(x, ast.Call) and call_name(x) == "append"
+                    and isinstance(x.func, ast.Attribute) and isinstance(x.func.value, ast.Name)]
             after = _stmts_after_in_block(l)
             ctor = [c for s in after for c in ast.walk(s) if isinstance(c, ast.Call) and call_name(c) == "apply_constructor" and len(c.args) == 2]
-            if not ctor:
+            used_later = set()
+            for s_ in after:
+                for c in ast.walk(s_):
+                    if isinstance(c, ast.Call) and call_name(c) in ("apply_constructor", "GengyList"):
+                        used_later |= {a.id for a in c.args if isinstance(a, ast.Name)}
+                    if isinstance(c, ast.Return) and isinstance(c.value, ast.Name):
+                        used_later.add(c.value.id)
+            names = {x.func.value.id for x in apps} & used_later
+            if len(names) != 1:
                 continue
             n += 1
-            c = ctor[0]
-            argl = c.args[1]
-            if not isinstance(argl, ast.Name):
-                ctx.ob("C01.R5", fn, c, f"{fn.name}: constructor argument list", None, "argument list is not a local name")
-                continue
+            argl_id = next(iter(names))
             bad = []
             for pth in paths(l.body, unroll_loops=False):
                 if pth[-1][1] in ("raise",):
                     continue
                 k = sum(1 for st in stmts_on(pth) for x in ast.walk(st) if isinstance(x, ast.Call) and call_name(x) == "append"
-                        and isinstance(x.func, ast.Attribute) and isinstance(x.func.value, ast.Name) and x.func.value.id == argl.id)
+                        and isinstance(x.func, ast.Attribute) and isinstance(x.func.value, ast.Name) and x.func.value.id == argl_id)
                 if k != 1 or pth[-1][1] in ("continue", "break"):
                     bad.append(k)
             ctx.ob("C01.R5", fn, l, f"{fn.name}: one argument per declared field on every path", not bad,
                    "" if not bad else f"a path through the field loop appends {bad[0]} arguments: the node is built with the wrong number of fields")
-            # same type in the loop header and the constructor call
-            gt = next(cc for cc in ast.walk(l.iter) if isinstance(cc, ast.Call) and call_name(cc) == "get_arguments")
-            same = gt.args and norm(gt.args[0]) == norm(c.args[0])
-            ctx.ob("C01.R5", fn, c, f"{fn.name}: the node is constructed from the type whose fields were enumerated", bool(same),
-                   "" if same else f"fields of '{norm(gt.args[0]) if gt.args else '?'}' are enumerated but '{norm(c.args[0])}' is constructed")
-    ctx.floor("C01.R5", n, 3, "field loops feeding apply_constructor")
+            # same type in the loop header and the constructor call (when the node is constructed in this function)
+            if ctor:
+                c = ctor[0]
+                gt = next(cc for cc in ast.walk(l.iter) if isinstance(cc, ast.Call) and call_name(cc) == "get_arguments")
+                same = gt.args and norm(gt.args[0]) == norm(c.args[0])
+                ctx.ob("C01.R5", fn, c, f"{fn.name}: the node is constructed from the type whose fields were enumerated", bool(same),
+                       "" if same else f"fields of '{norm(gt.args[0]) if gt.args else '?'}' are enumerated but '{norm(c.args[0])}' is constructed")
+    ctx.floor("C01.R5", n, 3, "field loops / comprehensions building constructor arguments")
 
 
 def _stmts_after_in_block(l: ast.stmt) -> list[ast.stmt]:
